@@ -19,7 +19,8 @@ def handle (j : Json) : Json :=
     | none => some none
   match hdr, getNat? j "limit", (getArr? j "frames").bind (·.mapM frame?) with
   | some hdr, some n, some fs =>
-    match extractWithLimit hdr n fs with
+    -- requests with a "proto" field went through the public `BufferedBody::extract` on the other side
+    match (if (getStr? j "proto").isSome then extract hdr (.enabled n) fs else extractWithLimit hdr n fs) with
     | .ok b => Json.mkObj [("r", "ok"), ("bytes", natListJson b)]
     | .sizeLimit =>
         Json.mkObj [("r", "size-limit"),
